@@ -1072,7 +1072,15 @@ class Interp:
         if self.fmode:
             vals = []
             for v in node.values:
-                vals.append(self.eval(v, env))
+                val = self.eval(v, env)
+                vals.append(val)
+                # python short circuit on concretely decided operands (later operands may not even be
+                # evaluable, e.g. `r[0] == "x" and r[2][0] ...`)
+                fv = self.formula(val)
+                if isinstance(fv, bool) and fv == isinstance(node.op, ast.Or):
+                    if all(isinstance(self.formula(x), bool) for x in vals):
+                        return val
+                    break
             fs = [self.formula(v) for v in vals]
             if all(isinstance(f, bool) for f in fs):
                 # concrete short circuit semantics
@@ -1353,6 +1361,14 @@ class Interp:
                 return self.eval_old(node.args[0], env)
             if f.id in ("forall", "exists") and f.id not in env.vars and self.fmode:
                 return self.eval_quant(f.id, node, env)
+            if f.id == "implies" and len(node.args) == 2 and not node.keywords:
+                # lazy in its consequent when the antecedent is concretely false
+                a = self.eval(node.args[0], env)
+                fa = self.formula(a)
+                if fa is False:
+                    return True
+                b = self.eval(node.args[1], env)
+                return self.call(self.builtins["implies"], [a, b], {})
         fn = self.eval(f, env)
         args = []
         kwargs = {}
